@@ -389,6 +389,7 @@ func runC15(w *eng.W) {
 			}
 		}
 	}
+	neighbourTexts(w, "neighbour-code-points", do)
 	lookaheadForms(w, "lookahead-forms", do)
 	tokenSeqs(w, "full-seq", SigmaFull, 3, do)
 	infixTriples(w, "infix-triples", do)
